@@ -137,6 +137,15 @@ class Datetime:
         self.text = text
 
 
+class Spelled:
+    """a string value written in the data file with a given raw spelling (multi-line TOML strings, YAML
+    block scalars with CRLF line ends): `value` is what the unchanged tree reads"""
+
+    def __init__(self, value, spelling):
+        self.value = value
+        self.spelling = spelling
+
+
 def special_float(v):
     return isinstance(v, float) and (v != v or v in (float("inf"), float("-inf")))
 
@@ -146,6 +155,8 @@ def to_lua(doc):
         return "nil"
     if isinstance(doc, Datetime):
         return "{[%s] = %s}" % (lua_string(Datetime.KEY), lua_string(doc.text))
+    if isinstance(doc, Spelled):
+        return lua_string(doc.value)
     if special_float(doc):
         return "(0/0)" if doc != doc else ("(1/0)" if doc > 0 else "(-1/0)")
     if doc is True:
@@ -216,6 +227,8 @@ def toml_value(v, k=0):
         return "true" if v else "false"
     if isinstance(v, Datetime):
         return v.text
+    if isinstance(v, Spelled):
+        return v.spelling
     if special_float(v):
         return ["nan", "+nan", "-nan"][k % 3] if v != v else (["inf", "+inf"][k % 2] if v > 0 else "-inf")
     if isinstance(v, (int, float)):
@@ -315,6 +328,10 @@ def doc_probes(doc, acc):
             for i, v in enumerate(d):
                 walk(v, e + "[%d]" % (i + 1))
             out.append("%s[%d]" % (e, len(d) + 1))
+        elif isinstance(d, Spelled):
+            out.append(e)
+            out.append("#%s" % e)
+            out.append("(%s == %s)" % (e, lua_string(d.value)))
         elif isinstance(d, Datetime):
             out.append("nkeys(%s)" % e)
             out.append("%s[%s]" % (e, lua_string(Datetime.KEY)))
@@ -345,14 +362,40 @@ def toml_specials_doc(rnd, marker):
            "day": Datetime("1979-05-27"), "clock": Datetime("07:32:00"),
            "t": {"x": rnd.choice([-inf, inf, nan]), "arr": rnd.choice([[nan, 1.5], [1.0, inf]]), "plain": 2.5,
                  "dates": [Datetime("2000-01-01"), Datetime("2000-01-02")]},
-           "inl": {"deep": {"v": inf, "w": [nan]}}}
+           "inl": {"deep": {"v": inf, "w": [nan]}},
+           # multi-line strings whose line ends are CRLF: the unchanged tree keeps the `\r` (the first newline is
+           # trimmed, a line-ending backslash eats the break and the indentation)
+           "ml": Spelled("first\r\nsecond\r\n", '"""\r\nfirst\r\nsecond\r\n"""'),
+           "lit": Spelled("lit\r\nx", "'''\r\nlit\r\nx'''"),
+           "cont": Spelled("one two", '"""one \\\r\n   two"""'),
+           "cr": Spelled("a\rb\r\n", '"a\\rb\\r\\n"')}
     return doc
+
+
+TXT_BYTES = [
+    "line1\r\nline2\r\n",                      # CRLF
+    "a\rb\rc",                                  # lone CR
+    "a\n\rb\n\r",                              # LF CR
+    "first\r\nlast line without newline",       # CRLF inside, no final newline
+    "ends with CRLF\r\n",                       # trailing CRLF
+    "\r\n",                                     # only a CRLF
+    "\r\n\r\n\r\r\n\n",                       # runs
+    "nul\x00 soh\x01 bel\x07 esc\x1b del\x7f\r\n",  # NUL and other control bytes
+    "caf\u00e9 \u20ac \U0001F600\r\n\ttab",         # multi-byte UTF-8 next to CRLF
+    "x\r\r\ny \\r\\n literal backslashes\r",   # CR CR LF, backslash sequences that are not line ends
+]
 
 
 def make_data(rnd, fmt, path, holes=None):
     """(file text, python value) - the value a require of the file must give.
     holes: None | "map" | "array" - a document made of sequences with interior nulls"""
     marker = "@@" + path
+    if fmt == "txt" and holes and holes.startswith("txt-bytes:"):
+        k = int(holes.split(":")[1])
+        body = TXT_BYTES[k % len(TXT_BYTES)]
+        # a byte order mark in front of everything in some files (then the marker is not first)
+        text = ("\ufeff" + body + marker) if k % 5 == 3 else (marker + " " + body)
+        return text, text
     if fmt == "txt":
         text = marker + rnd.choice(["", "\nsecond line", " \"q\" ]] \\ tail", "\n"])
         return text, text
@@ -364,8 +407,10 @@ def make_data(rnd, fmt, path, holes=None):
         return '{ _p: "%s", a: Infinity, b: [1, -Infinity], c: NaN }\n' % marker, doc
     if holes == "yaml-specials":
         doc = {"_p": marker, "a": float("inf"), "b": float("-inf"), "c": float("nan"), "d": [1, float("inf"), 2.5],
-               "e": 9007199254740993, "f": 18446744073709551615}
-        return '_p: "%s"\na: .inf\nb: -.inf\nc: .nan\nd: [1, .inf, 2.5]\ne: 9007199254740993\nf: 18446744073709551615\n' % marker, doc
+               "e": 9007199254740993, "f": 18446744073709551615, "blk": Spelled("first\nsecond\n", ""),
+               "fold": Spelled("folded text\n", ""), "esc": Spelled("x\r\ny", "")}
+        return ('_p: "%s"\na: .inf\nb: -.inf\nc: .nan\nd: [1, .inf, 2.5]\ne: 9007199254740993\nf: 18446744073709551615\n'
+                'blk: |\r\n  first\r\n  second\r\nfold: >\r\n  folded\r\n  text\r\nesc: "x\\r\\ny"\r\n' % marker), doc
     doc = holes_doc(rnd, marker, holes == "array") if holes else gen_doc(rnd, fmt, marker)
     if fmt == "json":
         return json.dumps(doc, indent=rnd.choice([None, 1])), doc
@@ -580,6 +625,11 @@ def lua_module_text(proj, rnd, m, mods):
         L.append("shared_loads = (shared_loads or 0) + 1")
         proj["features"].add("global-counter")
     L.append("local function bump() count = count + 1 return count end")
+    if proj.get("crlf_modules"):
+        # (no long string spanning lines here: darklua's reader keeps the CR LF of such a string, Lua reads LF -
+        # reported to C13; the comparison must not depend on it)
+        L.append("local banner = [[first second]] -- one line")
+        em.extra_shows.append("(#banner .. banner)")
     if rnd.random() < 0.3:
         # a global named like other modules' locals must not be visible here
         L.append("local leak = tostring(_P2) .. tostring(secret)")
@@ -624,6 +674,9 @@ def lua_module_text(proj, rnd, m, mods):
     else:
         L.append("return nil")
     m.text = "\n".join(L) + "\n"
+    if proj.get("crlf_modules") and m.idx % 2 == proj["crlf_modules"] % 2:
+        m.text = m.text.replace("\n", "\r\n")
+        proj["features"].add("crlf-module")
     m.sites = em.sites
     m.rtab = em.rtab
     return m.text
@@ -657,6 +710,14 @@ def entry_text(proj, rnd, m, mods):
             proj["features"].add("data:" + tm.path.rsplit(".", 1)[1])
         elif tm.vtype == "data":
             proj["features"].add("data:txt")
+            # the required text is the file's content verbatim: its length, every byte, equality with the literal
+            L.append("do local tt = %s" % a)
+            L.append("  local codes = {}")
+            L.append("  for i = 1, #tt do codes[i] = tt:sub(i, i):byte() end")
+            L.append('  ext_p(#tt, table.concat(codes, ","), tt == %s, string.sub(tt, -2), tt)' % lua_string(tm.doc))
+            L.append("end")
+            if "\r" in tm.doc:
+                proj["features"].add("txt-with-CR")
     # locals of modules are not visible
     L.append("ext_p(tostring(_P) .. tostring(secret) .. tostring(bump) .. tostring(name) .. tostring(shared_loads))")
     if proj.get("excluded"):
@@ -690,6 +751,9 @@ def entry_text(proj, rnd, m, mods):
     if rnd.random() < 0.4:
         L.append("return count")
     m.text = "\n".join(L) + "\n"
+    if proj.get("crlf_modules") and proj["crlf_modules"] > 1:
+        m.text = m.text.replace("\n", "\r\n")
+        proj["features"].add("crlf-entry")
     m.sites = em.sites
     m.rtab = em.rtab
     return m.text
@@ -817,6 +881,8 @@ def gen_project(rnd, mode=None, n=None, want=None):
                             "./lib/skip_*": ["./lib/skip_me"]}[proj["excludes"][0]]
     if want is None and rnd.random() < 0.3:
         proj["odd_forms"] = True
+    if want is None and rnd.random() < 0.2:
+        proj["crlf_modules"] = rnd.randint(1, 3)
     for m in mods:
         if m.kind == "data":
             fmt = m.path.rsplit(".", 1)[1]
@@ -1129,6 +1195,11 @@ def data_holes_project(rnd, mode, fmt, holes):
         m.text, m.doc = make_data(rnd, m.path.rsplit(".", 1)[1], m.path, holes if m.idx == 1 else rnd.choice(["map", "array"]))
         if m.idx == 1 and holes in ("toml-specials", "json5-nonfinite", "yaml-specials"):
             proj["features"].add("data-" + holes)
+        if m.idx == 3 and rnd.random() < 0.5:
+            # the whole file with CRLF line ends: the parsed value is the same
+            m.text = m.text.replace("\n", "\r\n")
+            proj["files"][m.path] = m.text
+            proj["features"].add("crlf-data-file")
         proj["files"][m.path] = m.text
     proj["files"][mods[2].path] = lua_module_text(proj, rnd, mods[2], mods)
     proj["files"][mods[0].path] = entry_text(proj, rnd, mods[0], mods)
